@@ -116,8 +116,19 @@ Proof.
       destruct da, db; cbn [bytes_cmp app] in *; destruct (zcmp x y); try reflexivity; exact IH.
 Qed.
 
-Lemma tree_order_py_eq_rs_lemma a b : plain (fst a) -> plain (fst b) -> py_tree_cmp a b = rs_tree_cmp a b.
-Proof. intros Ha Hb. unfold py_tree_cmp, rs_tree_cmp, py_key. apply cmp_suffix_eq; assumption. Qed.
+Lemma tree_order_one_byte_lemma a b : plain (fst a) -> plain (fst b) -> py_tree_cmp a b = rs_tree_cmp_one_byte a b.
+Proof. intros Ha Hb. unfold py_tree_cmp, rs_tree_cmp_one_byte, py_key. apply cmp_suffix_eq; assumption. Qed.
+
+Lemma tree_order_py_eq_rs_lemma a b : py_tree_cmp a b = rs_tree_cmp a b.
+Proof.
+  unfold py_tree_cmp, rs_tree_cmp, py_key, rs_suffix.
+  destruct (is_dir (snd a)), (is_dir (snd b)); rewrite ?app_nil_r; reflexivity.
+Qed.
+
+(* "foo" (a directory) against "foo/bar": equal for the one-byte comparator, ordered for key_entry *)
+Lemma one_byte_differs :
+  exists a b, py_tree_cmp a b <> rs_tree_cmp_one_byte a b.
+Proof. exists ([102;111;111], 16384), ([102;111;111;47;98;97;114], 33188). vm_compute. discriminate. Qed.
 
 (* ---------- bisect ---------- *)
 Lemma bisect_py_eq_rs_lemma name sha : forall fuel s e,
@@ -141,11 +152,11 @@ Proof.
 Qed.
 
 Lemma bisect_top_py_eq_rs fuel name sha s e :
-  (zlen sha = 20 \/ zlen sha = 32) -> 0 <= s -> e < 4611686018427387904 ->
+  0 <= s -> e < 4611686018427387904 ->
   py_bisect_top fuel name sha s e = rs_bisect_top fuel name sha s e.
 Proof.
-  intros Hl Hs He. unfold py_bisect_top, rs_bisect_top.
-  replace (negb ((zlen sha =? 20) || (zlen sha =? 32))) with false by lia.
+  intros Hs He. unfold py_bisect_top, rs_bisect_top.
+  destruct (negb ((zlen sha =? 20) || (zlen sha =? 32))); [reflexivity|].
   destruct (s >? e); [reflexivity|]. apply bisect_py_eq_rs_lemma; assumption.
 Qed.
 
